@@ -49,6 +49,11 @@ CLAIMED = {
         "level": "Generated radii/volumes over 30 decades x dims 1-3 x scalar/array layouts; every conversion variant compared with textbook formulas and with each other; bounded search, no proof of the symbolic claim.",
         "note": "Trusts numpy/numba arithmetic; tolerances rtol 1e-13 (1e-7 for the numerical derivative).",
     },
+    "C13": {
+        "technique": _T + "; quadrature of the body bounded by interface_distance, exact differential geometry (planar curvature from r,r',r''; mean curvature from fundamental forms), re-implemented harmonic series, sphere limit",
+        "level": "Generated perturbed droplets of all three classes, R0 over two decades, arbitrary centres, several simultaneously non-zero modes up to degree 4 in four amplitude regimes; exact claims to 1e-6..1e-12, first-order claims as |error| R0 <= C s^2 over s = 1e-5..1e-2.",
+        "note": "numpy/scipy quadrature primitives trusted; directions kept 0.2 rad off the poles; 3-D volume only for <= 8 non-zero modes.",
+    },
     "C16": {
         "technique": _T + "; Parseval identity, wave-number oracle, metamorphic relations (scale, roll, flip, transpose, stretch)",
         "level": "Generated fully periodic grids (dims 1-3, even/odd shapes, anisotropic spacings over 4 decades) x field kinds x transformation bundles; unsmoothed and smoothed variants with requested wave numbers and add_zero.",
